@@ -293,7 +293,8 @@ class Schedule:  # 0404
             if not did_io:  # must know the version of the schedule about to be RQ'd
                 self._global_ver, _ = await self.tcs._schedule_version(force_io=True)
 
-            self._payload_set[0] = None  # if 1st frag valid: sched. likely unchanged
+            # an edit late in the week leaves the 1st frag (even all but the last) as it was
+            self._payload_set = [None] * len(self._payload_set)  # so fetch them all anew
             while frag_num := next(
                 i for i, f in enumerate(self._payload_set, 1) if f is None
             ):
